@@ -771,6 +771,12 @@ def slice_value(interp, base, lo, hi, st):
         interp.state.events.append(('slice', base, lo, hi, list(interp.state.notes)))
     def cint(x):
         return x.value if isinstance(x, Const) and (x.value is None or isinstance(x.value, int)) else 'sym'
+    for x in (lo, hi, st):
+        # a float, a text ... is no slice index (2.0 is not 2 here)
+        if x is not None and ((isinstance(x, Const) and x.value is not None and not isinstance(x.value, int)) or
+                              (not isinstance(x, Const) and x.tag in ('float', 'str', 'list', 'tuple'))):
+            if base.tag in ('str', 'list', 'tuple') or isinstance(base, ListV):
+                raise Raised(Exc('TypeError', 'slice indices must be integers or None or have an __index__ method'))
     l, h, s = (None if lo is None else cint(lo)), (None if hi is None else cint(hi)), (None if st is None else cint(st))
     if isinstance(base, ListV) and 'sym' not in (l, h, s) and not base.has_splice():
         return ListV(base.items[l:h:s], base.kind)
@@ -1452,8 +1458,16 @@ def call_builtin(interp, name, args, kwargs):
     if name.startswith('statistics.'):
         items = _drain(interp, args[0])
         return Atom(name, [i if not isinstance(i, Splice) else Sym('list', i.name) for i in items] + list(args[1:]), 'float')
+    if name in ('random.SystemRandom', 'secrets.SystemRandom', 'random.Random') and not args:
+        return Builtin('random')        # a generator object: its methods are the module's functions
+    if name == 'secrets.randbelow' and len(args) == 1:
+        return Atom('random.randrange', [Const(0), args[0]], 'int')      # an integer in [0, n)
+    if name == 'secrets.choice' and len(args) == 1:
+        return Atom('random.choice', args, None)
     if name.startswith('random.'):
-        return Atom(name, args, 'float' if short == 'random' else 'int')
+        if short == 'randrange' and len(args) == 1:
+            args = [Const(0), args[0]]
+        return Atom(name, args, 'float' if short in ('random', 'uniform') else 'int')
     if name in ('calendar.timegm', 'time.mktime') and len(args) == 1 and _fields_of_one_datetime(args[0], 6) is not None:
         # whole seconds since 1970 of the (naive, UTC) date-time: the floor of its epoch seconds
         import math
